@@ -5,11 +5,16 @@ package main
 // verified, for whom") on the context of the request being served.
 
 import (
+	"bytes"
 	"crypto/x509"
+	"encoding/xml"
 	"errors"
 	"fmt"
+	"html"
 	"net/url"
+	"regexp"
 	"sort"
+	"strconv"
 	"strings"
 	"time"
 
@@ -278,6 +283,106 @@ func (v *simVIP) pushApproved(txn string) (bool, error) {
 		return true, nil
 	}
 	return false, nil
+}
+
+// ---- the VIP user services at the wire (SOAP over HTTPS; lib/vip builds the requests and evaluates the answers) ----
+
+var (
+	reVipUser  = regexp.MustCompile(`<(?:\w+:)?userId>([^<]*)</`)
+	reVipCred  = regexp.MustCompile(`<(?:\w+:)?credentialId>([^<]*)</`)
+	reVipOTP   = regexp.MustCompile(`<(?:\w+:)?otp>([^<]*)</`)
+	reVipTxn   = regexp.MustCompile(`<(?:\w+:)?transactionId>([^<]*)</`)
+	reVipReqID = regexp.MustCompile(`<(?:\w+:)?requestId>([^<]*)</`)
+)
+
+const vipNS = `xmlns="https://schemas.symantec.com/vip/2011/04/vipuserservices"`
+
+func vipEnvelope(inner string) []byte {
+	return []byte(`<?xml version="1.0" encoding="UTF-8"?>` + "\n" + `<S:Envelope xmlns:S="http://schemas.xmlsoap.org/soap/envelope/"><S:Body>` + inner + `</S:Body></S:Envelope>`)
+}
+
+func xmlEsc(s string) string {
+	var b bytes.Buffer
+	xml.EscapeText(&b, []byte(s))
+	return b.String()
+}
+
+// soap answers one POST of lib/vip.
+func (v *simVIP) soap(data []byte, targetURL string, contentType string) ([]byte, error) {
+	body := string(data)
+	first := func(re *regexp.Regexp) string {
+		if m := re.FindStringSubmatch(body); m != nil {
+			return html.UnescapeString(m[1])
+		}
+		return ""
+	}
+	reqID := xmlEsc(first(reVipReqID))
+	switch {
+	case strings.Contains(body, "GetUserInfoRequest"):
+		// (no decision point of its own: the credential list is static)
+		if v.Fail {
+			return nil, errors.New("sim: VIP service unreachable")
+		}
+		user := first(reVipUser)
+		return vipEnvelope(`<GetUserInfoResponse ` + vipNS + `><requestId>` + reqID + `</requestId><status>0000</status><statusMessage>Success</statusMessage><userId>` + xmlEsc(user) +
+			`</userId><userCreationTime>1999-01-01T00:00:00.000Z</userCreationTime><userStatus>ACTIVE</userStatus><numBindings>2</numBindings>` +
+			`<credentialBindingDetail><credentialId>SYMD` + xmlEsc(user) + `</credentialId><credentialType>STANDARD_OTP</credentialType><credentialStatus>DISABLED</credentialStatus><bindingDetail><bindStatus>DISABLED</bindStatus></bindingDetail></credentialBindingDetail>` +
+			`<credentialBindingDetail><credentialId>SYMC` + xmlEsc(user) + `</credentialId><credentialType>STANDARD_OTP</credentialType><credentialStatus>ENABLED</credentialStatus><bindingDetail><bindStatus>ENABLED</bindStatus></bindingDetail></credentialBindingDetail>` +
+			`</GetUserInfoResponse>`), nil
+	case strings.Contains(body, "AuthenticateCredentialsRequest"):
+		cred := first(reVipCred)
+		otp, _ := strconv.Atoi(first(reVipOTP))
+		ok, err := false, error(nil)
+		if strings.HasPrefix(cred, "SYMC") {
+			ok, err = v.validateOTP(strings.TrimPrefix(cred, "SYMC"), otp)
+		} else {
+			v.w.sched.park("vip:otp")
+		}
+		if err != nil {
+			return nil, err
+		}
+		st, msg := "6009", "Authentication failed"
+		if ok {
+			st, msg = "0000", "Success"
+		}
+		return vipEnvelope(`<AuthenticateCredentialsResponse ` + vipNS + `><requestId>` + reqID + `</requestId><status>` + st + `</status><statusMessage>` + msg + `</statusMessage><credentialId>` + xmlEsc(cred) +
+			`</credentialId><credentialType>STANDARD_OTP</credentialType></AuthenticateCredentialsResponse>`), nil
+	case strings.Contains(body, "AuthenticateUserWithPushRequest"):
+		id, err := v.startPush(first(reVipUser))
+		if err != nil {
+			return nil, err
+		}
+		return vipEnvelope(`<AuthenticateUserWithPushResponse ` + vipNS + `><requestId>` + reqID + `</requestId><status>6040</status><statusMessage>Mobile push request sent</statusMessage><transactionId>` + id +
+			`</transactionId><pushDetail><pushCredentialId>SYMC1</pushCredentialId><pushSent>true</pushSent></pushDetail></AuthenticateUserWithPushResponse>`), nil
+	case strings.Contains(body, "PollPushStatusRequest"):
+		txn := first(reVipTxn)
+		v.w.sched.park("vip:poll")
+		if v.Fail {
+			return nil, errors.New("sim: VIP service unreachable")
+		}
+		st, msg := "7005", "Mobile push request not found"
+		if p := v.Pushes[txn]; p != nil {
+			switch {
+			case p.Denied:
+				st, msg = "7002", "Mobile push request denied by user"
+			case time.Since(p.At) > 120*time.Second:
+				st, msg = "7003", "Mobile push request expired"
+				v.w.probe("vip-push-expired-polled")
+			case p.Approved:
+				st, msg = "7000", "Mobile push request approved by user"
+				if ctx := v.w.reqCtx(); ctx != nil {
+					ctx.truth = append(ctx.truth, vfClaim{Factor: AuthTypeSymantecVIP, User: p.User})
+				}
+			default:
+				st, msg = "7001", "Mobile push request in progress"
+			}
+		} else {
+			v.w.probe("vip-push-unknown-polled")
+		}
+		return vipEnvelope(`<PollPushStatusResponse ` + vipNS + `><requestId>` + reqID + `</requestId><status>0000</status><statusMessage>Success</statusMessage><transactionStatus><transactionId>` + xmlEsc(txn) +
+			`</transactionId><status>` + st + `</status><statusMessage>` + msg + `</statusMessage></transactionStatus></PollPushStatusResponse>`), nil
+	}
+	return vipEnvelope(`<S:Fault><faultcode>S:Client</faultcode><faultstring>unknown request</faultstring></S:Fault>`), nil
 }
 
 // the user's device answers the newest pending push of that user
